@@ -69,6 +69,7 @@ class Struct:
     file: str | None = None
     extra_ok: tuple = ()  # python fields deliberately not modelled
     tparams: str = "(α : Type)"
+    defaults: dict = dataclasses.field(default_factory=dict)  # field -> lean default (keyword constructors)
 
 
 @dataclasses.dataclass
@@ -85,6 +86,10 @@ class Target:
     consts: dict = dataclasses.field(default_factory=dict)  # python names bound to lean exprs
     lets_types: dict = dataclasses.field(default_factory=dict)
     doc: str = ""
+    part: tuple | None = None  # ("before"|"after", "<call text marker>"): translate only that slice of the body
+    ret_expr: str | None = None  # python expression returned by a sliced body
+    ctors: dict = dataclasses.field(default_factory=dict)  # python class name -> Struct name (keyword construction)
+    pre_env: dict = dataclasses.field(default_factory=dict)  # names bound before a sliced body
 
 
 # whitelisted library calls: python dotted name -> handler(translator, args(code,type)) -> (code,type)
@@ -408,13 +413,32 @@ class Tr:
         # method-style .sum()
         if isinstance(n.func, ast.Attribute) and n.func.attr == "sum" and not n.args and fn not in self.tgt.calls:
             return _sum(self, [self.es(n.func.value)], kw)
+        if fn in self.tgt.ctors:
+            st = self.structs[self.tgt.ctors[fn]]
+            if n.args:
+                raise Untranslatable(f"{fn}: positional constructor arguments")
+            vals = {}
+            for k in n.keywords:
+                vals[k.arg] = self.es(k.value)[0]
+            flds = []
+            for f, t in st.fields:
+                if f in vals:
+                    flds.append(f"{f} := {vals.pop(f)}")
+                elif f in st.defaults:
+                    flds.append(f"{f} := {st.defaults[f]}")
+                else:
+                    raise Untranslatable(f"{fn}: field {f} not given")
+            if vals:
+                raise Untranslatable(f"{fn}: unknown fields {sorted(vals)}")
+            return "({ " + ", ".join(flds) + " } : " + lean_type(R(st.name)) + ")", R(st.name)
         if fn in self.tgt.calls:
             lname, rt, *rest = self.tgt.calls[fn]
             argc = [self.es(a)[0] for a in n.args]
             extra = rest[0] if rest else []
             return "(" + " ".join([lname] + extra + argc) + ")", rt
         if fn in LIB:
-            raw = [self._e(a) for a in n.args]
+            pos = [a for a in n.args if not (isinstance(a, ast.Name) and a.id in ("float", "int", "bool"))]
+            raw = [self._e(a) for a in pos]
             has_int = any(t == I for _, t in raw)
             has_sc = any(t in (S, V) for _, t in raw)
             args = []
@@ -650,13 +674,26 @@ def translate_target(repo, tgt: Target, structs) -> tuple[str, Tr]:
             isinstance(st, ast.Assign) and len(st.targets) == 1 and isinstance(st.targets[0], ast.Attribute)
             and isinstance(st.targets[0].value, ast.Name) and st.targets[0].value.id == "self"
             and st.targets[0].attr in ok)]
-    used = {n.id for n in ast.walk(fn) if isinstance(n, ast.Name)}
+    stmts = list(fn.body)
+    if tgt.part is not None:
+        where, marker = tgt.part
+        idx = [i for i, st in enumerate(stmts) if marker in ast.unparse(st) and not isinstance(st, (ast.FunctionDef, ast.ClassDef))]
+        if len(idx) != 1:
+            raise Untranslatable(f"{tgt.path}: marker {marker!r} found {len(idx)} times")
+        stmts = stmts[: idx[0]] if where == "before" else stmts[idx[0] + 1:]
+        stmts = [st for st in stmts if not (isinstance(st, ast.If) and all(isinstance(b, ast.Raise) for b in st.body))]
+        if where == "before" or tgt.ret_expr is not None:
+            stmts = [st for st in stmts if not isinstance(st, ast.Return)]
+            stmts.append(ast.Return(value=ast.parse(tgt.ret_expr, mode="eval").body))
+    used = {n.id for st in stmts for n in ast.walk(st) if isinstance(n, ast.Name) and not isinstance(st, (ast.FunctionDef, ast.ClassDef))}
     for a in pyargs:
-        if a not in declared and a != "self" and a in used and a not in dict(tgt.free) and a not in tgt.consts:
+        if tgt.part is None and a not in declared and a != "self" and a in used and a not in dict(tgt.free) and a not in tgt.consts:
             # `condition` passed through to nested self-calls is allowed if the callee drops it
-            if not _only_passed_to_dropping_calls(fn, a, tgt):
+            if not _only_passed_to_dropping_calls(ast.Module(body=stmts, type_ignores=[]), a, tgt):
                 raise Untranslatable(f"{tgt.path}: undeclared argument {a} is used")
-    body = tr.body(fn.body)
+    for k, v in tgt.pre_env.items():
+        tr.env[k] = v
+    body = tr.body(stmts)
     ret = tgt.init_of + " α" if tgt.init_of else lean_type(tgt.ret)
     doc = f"/-- generated from `{tgt.file}` :: `{tgt.path}` -/\n"
     code = f"{doc}def {tgt.name} {' '.join(params)} : {ret} :=\n  {body}\n"
